@@ -274,7 +274,7 @@ def denan(c):
 
 
 def worker(tier, seed, shard, nshards, out):
-    n = {"quick": 24000, "thorough": 400000}[tier] // nshards
+    n = {"quick": 24000, "thorough": 250000}[tier] // nshards
 
     @hseed(seed * 1000 + shard)
     @settings(database=None, deadline=None, max_examples=n, suppress_health_check=list(HealthCheck), derandomize=False, print_blob=False)
